@@ -2,11 +2,14 @@ import SqlObjVerif.Model.FailX
 import SqlObjVerif.Model.FailCreateX
 import SqlObjVerif.Model.FailDestroyInhX
 import SqlObjVerif.Model.FailOpXInh
+import SqlObjVerif.Model.FailInhSetX
 /-!
 # C06 — the operations of `Model/Fail.lean` that are TIED to the translated source, as one function
 
 `stepX sch props s op inj` runs the translated program of operation `op` (attribute assignment = `_SO_setValue`,
-`set(**kw)` = `set` with any column and extra keywords) from the image of the hand model's state `s` under the schedule (`inj`, the validator oracle of
+`set(**kw)` = the translated `InheritableSQLObject.set` (for a class without parent: `SQLObject.set(self, **kw)`) →
+the translated `set` with any column and extra keywords, the setters of ForeignKeys given by object and of inherited
+columns being translated code too (`Model/FailPropX.lean`, `FailInhSetX.lean`)) from the image of the hand model's state `s` under the schedule (`inj`, the validator oracle of
 the operation's arguments) and reads the end of the run as an observation (`Obs`: tables, link tables, instances,
 registered ids, `seqs`, `lastId`, statement counter and log) and the error, if it raised.  `Tied` says which
 operations are covered and what a Python call can express: column numbers in range, keyword names distinct.
@@ -21,7 +24,8 @@ open SqlObjVerif.Fail (Err Schema Inj Extra In Op clsOf)
 /-- what a Python call of a tied operation can express -/
 def Tied (sch : Schema) (s : Fail.St) : Op → Prop
   | .setattr c _ col _ => col < (clsOf sch c).cols.length
-  | .set c _ kw _ => (∀ e ∈ kw, e.1 < (clsOf sch c).cols.length) ∧ (kw.map (·.1)).Nodup
+  | .set c _ kw ex => (∀ e ∈ kw, e.1 < (clsOf sch c).cols.length) ∧ (kw.map (·.1)).Nodup ∧
+      ∀ e ∈ ex, FailInhSet.exOk sch c e
   /- `kw`: the keywords given followed by the defaulted columns (the theorem about `createF` itself takes the
      keywords given and the class's defaults table); `missing`: a required keyword is really absent -/
   | .create c missing kw ex => ex = [] ∧ (∀ e ∈ kw, e.1 < (clsOf sch c).cols.length) ∧ (kw.map (·.1)).Nodup ∧
@@ -33,6 +37,9 @@ def Tied (sch : Schema) (s : Fail.St) : Op → Prop
   /- the inheritable create: the level lists are what ONE Python call `Leaf(**kw)` produces (`Fail.InhX.TiedInh`) -/
   | .createChild c pkw ckw => Fail.InhX.TiedInh sch s (.createChild c pkw ckw)
   | .createChain levels => Fail.InhX.TiedInh sch s (.createChain levels)
+
+instance (sch : Schema) (c : Nat) (e : Extra) : Decidable (FailInhSet.exOk sch c e) := by
+  cases e <;> unfold FailInhSet.exOk <;> infer_instance
 
 instance (sch : Schema) (s : Fail.St) (op : Op) : Decidable (Tied sch s op) := by
   unfold Tied; cases op <;> infer_instance
@@ -51,7 +58,8 @@ def stepXO (sch : Schema) (props : Nat → Extra) (s : Fail.St) (op : Op) (inj :
   match op with
   | .setattr c id col v => setValueF (mkW sch inj props s0 c id (vqOf [(col, v)])) col v
   | .set c id kw ex =>
-    setF (mkW sch inj (propsOf (clsOf sch c).cols.length ex) s0 c id (vqOf kw)) (kwPV (kw ++ exKw (clsOf sch c).cols.length ex))
+    FailInhSet.inhSetF (mkW sch inj (propsOf (clsOf sch c).cols.length ex) s0 c id (vqOf kw ++ vqEx ex))
+      (kwPV (kw ++ exKw (clsOf sch c).cols.length ex))
   | .sync c id => syncUpdateF (mkW sch inj props s0 c id [])
   | .create c missing kw _ => PyCreate.createF (fun _ => none) (fun _ => !missing) sch inj props s0 c (vqOf kw) none kw
   | _ => .stuck
